@@ -335,10 +335,12 @@ func nameID(name string) (uint64, string) {
 	return id, ext
 }
 
-// cutSet: the prefix lengths tried for a file of n bytes.
-func cutSet(n int, all bool, r *hlib.Rand) []int {
+// cutSet: the prefix lengths tried for a file of n bytes. mode 0: a small boundary set (quick tier); 1: a larger
+// boundary set; 2: every length for files < 512 bytes (the larger boundary set otherwise).
+func cutSet(n int, mode int, r *hlib.Rand) []int {
 	set := map[int]bool{}
-	if all && n < 512 {
+	all := mode >= 1
+	if mode == 2 && n < 512 {
 		for i := 0; i < n; i++ {
 			set[i] = true
 		}
@@ -370,7 +372,7 @@ type fileVar struct {
 }
 
 // fileVariants: everything a file in flight can look like after a crash.
-func fileVariants(full, prev []byte, hasPrev bool, all bool, light bool, r *hlib.Rand) []fileVar {
+func fileVariants(full, prev []byte, hasPrev bool, mode int, light bool, r *hlib.Rand) []fileVar {
 	n := len(full)
 	var out []fileVar
 	add := func(b []byte, desc string) {
@@ -391,7 +393,7 @@ func fileVariants(full, prev []byte, hasPrev bool, all bool, light bool, r *hlib
 		add(full, fmt.Sprintf("full:%d", n))
 		return out
 	}
-	for _, k := range cutSet(n, all, r) {
+	for _, k := range cutSet(n, mode, r) {
 		if k == 0 && hasPrev {
 			continue
 		}
@@ -400,7 +402,7 @@ func fileVariants(full, prev []byte, hasPrev bool, all bool, light bool, r *hlib
 	add(make([]byte, n), fmt.Sprintf("zero:%d", n))
 	add(full, fmt.Sprintf("full:%d", n))
 	if hasPrev && len(prev) > 0 {
-		cs := cutSet(n, all, r)
+		cs := cutSet(n, mode, r)
 		cs = append(cs, n)
 		for _, k := range cs {
 			if k < len(prev) {
@@ -414,7 +416,7 @@ func fileVariants(full, prev []byte, hasPrev bool, all bool, light bool, r *hlib
 
 // variantsOf builds the crash images of one record. Each file in flight is varied in turn while the
 // others are left half written (or absent / full, alternating with the variant number).
-func variantsOf(im *image, all bool, r *hlib.Rand) []variant3 {
+func variantsOf(im *image, mode int, r *hlib.Rand) []variant3 {
 	base := func() (map[string][]byte, map[string]bool) {
 		m, c := map[string][]byte{}, map[string]bool{}
 		for k, v := range im.files {
@@ -441,8 +443,12 @@ func variantsOf(im *image, all bool, r *hlib.Rand) []variant3 {
 	for _, n := range names {
 		_, ext := nameID(n)
 		prev, hasPrev := im.prev[n]
-		light := ext == ".seg" && !all
-		for vi, fv := range fileVariants(im.inflight[n], prev, hasPrev, all, light, r) {
+		light := ext == ".seg" && mode == 0
+		m := mode
+		if ext == ".seg" && m == 2 {
+			m = 1 // segment files are long: the boundary set
+		}
+		for vi, fv := range fileVariants(im.inflight[n], prev, hasPrev, m, light, r) {
 			m, c := base()
 			v := variant3{files: m, complete: c, snap: "-"}
 			put := func(name string, f fileVar) {
@@ -688,7 +694,7 @@ func (h *HR) emitLifetime(lt *lifetime, out func(string, string), st *hlib.Stats
 			if infl {
 				// quick tier: every third record with files in flight gets its whole (boundary) variant set, the others two variants
 				ninfl++
-				if ninfl%4 != 1 {
+				if ninfl%5 != 1 {
 					limit = 2
 				}
 			} else {
@@ -696,17 +702,27 @@ func (h *HR) emitLifetime(lt *lifetime, out func(string, string), st *hlib.Stats
 				w := strings.SplitN(rc.op, " ", 2)[0]
 				switch w {
 				case "ackobs", "commit", "rmsnap", "rmseg", "snapend", "segend", "msegend", "ipersist", "opened":
-					if nplain%4 != 0 {
+					if nplain%5 != 0 {
 						continue
 					}
 				default:
-					if nplain%9 != 0 {
+					if nplain%11 != 0 {
 						continue
 					}
 				}
 			}
 		}
-		vs := variantsOf(rc.img, all, r)
+		mode := 0
+		if all {
+			mode = 1
+			if infl {
+				ninfl++
+				if ninfl%4 == 1 && !h.Mode.Faults {
+					mode = 2 // every prefix length
+				}
+			}
+		}
+		vs := variantsOf(rc.img, mode, r)
 		if limit > 0 && len(vs) > limit {
 			a := r.Intn(len(vs))
 			b := (a + 1 + r.Intn(len(vs)-1)) % len(vs)
@@ -837,7 +853,11 @@ func choose(parent *lifetime, kind string, sel, vr int, all bool) (int, variant3
 	if kind == "twofault" {
 		p = cand[len(cand)-1]
 	}
-	vs := variantsOf(recs[p].img, all, hlib.NewRand(uint64(sel)*31+uint64(vr)))
+	mode := 0
+	if all {
+		mode = 1
+	}
+	vs := variantsOf(recs[p].img, mode, hlib.NewRand(uint64(sel)*31+uint64(vr)))
 	var pick []variant3
 	for _, v := range vs {
 		switch kind {
@@ -988,7 +1008,7 @@ func (h *HR) Gen(r *hlib.Rand, tier string, scale int, emit func(string)) {
 	}
 	cases := 8 * scale
 	if tier == "thorough" {
-		cases = 40 * scale
+		cases = 16 * scale
 	}
 	tok := 0
 	for ci := 0; ci < cases; ci++ {
